@@ -30,15 +30,19 @@ def sec_view(pel, s):
                 payload=s['payload'])
 
 
-def entry_view(e):
+def entry_view(e, collide=()):
+    """collide: header field names that the section's own JSON object uses as member names as well - there the
+    entry shows the member (the JSON value must appear as it is) and the header field cannot be compared"""
     if not isinstance(e, dict):
         raise project.ShapeError('entry is not an object')
     data = e.get('Data')
     has_data = isinstance(data, list) and all(isinstance(x, str) for x in data)
-    rest = {k: v for k, v in e.items() if k not in BASE}
-    return dict(present=True, ver=project._int(project.get(e, 'Section Version')),
-                sub=project._int(project.get(e, 'Sub-section type')),
-                createdby=project.cp(project.get(e, 'Created by')), has_error='Error' in e,
+    rest = {k: v for k, v in e.items() if k not in BASE or k in collide}
+    return dict(present=True,
+                ver=0 if 'Section Version' in collide else project._int(project.get(e, 'Section Version')),
+                sub=0 if 'Sub-section type' in collide else project._int(project.get(e, 'Sub-section type')),
+                createdby=[] if 'Created by' in collide else project.cp(project.get(e, 'Created by')),
+                has_error='Error' in e,
                 has_data=has_data, data=[project.cp(x) for x in data] if has_data else [],
                 canon=json.dumps(rest, sort_keys=True))
 
@@ -46,7 +50,7 @@ def entry_view(e):
 ABSENT_ENTRY = dict(present=False, ver=0, sub=0, createdby=[], has_error=False, has_data=False, data=[], canon='')
 
 
-def observe(pel, focus, plugins, beh, family, expect_canon='', c18=False, pel_ok=None, fixture=False):
+def observe(pel, focus, plugins, beh, family, expect_canon='', c18=False, pel_ok=None, fixture=False, collide=()):
     import verif_fixture
     seams.install_fixture_plugins()
     log = seams.install_import_recorder()
@@ -63,6 +67,7 @@ def observe(pel, focus, plugins, beh, family, expect_canon='', c18=False, pel_ok
     s = pel['secs'][focus]
     rec = dict(family=family, shape_ok=True, sec=sec_view(pel, s), pelcreator=pel['ph']['creator'],
                plugins=plugins, beh=beh, entry=dict(ABSENT_ENTRY), expect_canon=expect_canon, fixture=fixture,
+               collide=sorted(collide),
                imports=[project.cp(n) for n in imports], calls=calls, others=[], others_ok=[],
                modules_before=before, modules_after=after, outcome=res['outcome'], detail=res['detail'])
     doc = res['doc']
@@ -71,7 +76,7 @@ def observe(pel, focus, plugins, beh, family, expect_canon='', c18=False, pel_ok
     try:
         entries = list(doc.values())
         if len(entries) == 2 + len(pel['secs']):
-            rec['entry'] = entry_view(entries[2 + focus])
+            rec['entry'] = entry_view(entries[2 + focus], collide)
             rec['others'] = [project.digest(e) for k, e in enumerate(entries) if k != 2 + focus]
     except (project.ShapeError, TypeError, ValueError) as e:
         rec['shape_ok'] = False
